@@ -929,6 +929,7 @@ struct Symboliser
 {
     std::map<void*, std::vector<Frame> > cache;     // one address -> inlined frames, innermost first
     std::map<void*, std::string>         module;
+    int                                  mismatches = 0;        // answers != questions: names cannot be trusted
 
     static std::string demangle(const char* n)
     {
@@ -971,10 +972,11 @@ struct Symboliser
         {
             size_t idx = 0;
             std::vector<Frame> cur;
-            char buf[8192];
+            char* buf = 0;             // demangled template names run to tens of kilobytes: no fixed line buffer
+            size_t cap = 0;
             std::string fn;
             bool haveFn = false;
-            while (fgets(buf, sizeof buf, p) != 0)
+            while (getline(&buf, &cap, p) >= 0)
             {
                 std::string l(buf);
                 while (!l.empty() && (l.back() == '\n' || l.back() == '\r')) l.pop_back();
@@ -987,7 +989,9 @@ struct Symboliser
                 if (!haveFn) { fn = l; haveFn = true; }
                 else { cur.push_back(Frame{ fn, l }); haveFn = false; }
             }
+            free(buf);
             pclose(p);
+            if (idx != todo.size()) { ++mismatches; fprintf(stderr, "c19: symboliser answered %zu of %zu addresses\n", idx, todo.size()); }
         }
         unlink(inName);
     }
@@ -1430,6 +1434,7 @@ struct Engine
                 ++nSamples;
             }
         }
+        if (sy.mismatches != 0) out.count("symboliser_mismatch", sy.mismatches);
         for (auto& kv : out.counts) printf("count\t%s\t%lld\n", escField(kv.first).c_str(), kv.second);
         for (auto& v : out.viols) printf("viol\t%s\t%s\n", escField(v.first).c_str(), escField(v.second).c_str());
         for (auto& s : sampleLines) printf("sample\t%s\n", escField(s).c_str());
